@@ -558,6 +558,7 @@ package impl
 //@ func (*impl.manager).notifier {C17}
 //@   ensures [forward-once] seq(PubSub.Publish) && all(PubSub.Publish, $0 == m.pubSub && $1.(impl.internalEvent).evt == evt && $1.(impl.internalEvent).state == chst)
 //@ func impl.dispatcher {C17}
+//@   acquires {C20} graphsync.Transport.dtChannelsLk, graphsync.dtChannel.lk, tracing.SpansIndex.spansLk
 //@   requires [registered-callbacks-nonnil] dyntype_is(subscriberFn, datatransfer.Subscriber) ==> subscriberFn.(datatransfer.Subscriber) != nil
 //@   ensures [forward-once] result == nil ==> seq(dyn.Subscriber) && all(dyn.Subscriber, $1 == evt.(impl.internalEvent).evt && $2 == evt.(impl.internalEvent).state)
 //@   ensures [at-most-once] calls(dyn.Subscriber) <= 1 && only(dyn.Subscriber)
